@@ -17,7 +17,7 @@ func (f Float) WriteTerm(w io.Writer, opts *WriteOptions, _ *Env) error {
 	ew := errWriter{w: w}
 	openClose := opts.left.name == atomMinus && opts.left.specifier.class() == operatorClassPrefix && !math.Signbit(float64(f))
 
-	if openClose || (f < 0 && opts.left != operator{}) {
+	if openClose || (math.Signbit(float64(f)) && opts.left != operator{}) {
 		_, _ = ew.Write([]byte(" "))
 	}
 
